@@ -13,6 +13,7 @@ import json
 import os
 import pickle
 import select
+import shutil
 import signal
 import struct
 import sys
@@ -24,12 +25,19 @@ REPO = os.environ.get("VERIF_REPO", "/repo")
 
 
 def reexec_pinned():
-    """Re-exec with a fixed hash seed so set/dict-of-str order is part of the replayable state."""
-    if os.environ.get("PYTHONHASHSEED") != os.environ.get("VERIF_HASHSEED", "0") or os.environ.get("PYTHONDONTWRITEBYTECODE") != "1":
-        env = dict(os.environ)
-        env["PYTHONHASHSEED"] = os.environ.get("VERIF_HASHSEED", "0")
-        env["PYTHONDONTWRITEBYTECODE"] = "1"
-        os.execve(sys.executable, [sys.executable] + sys.argv, env)
+    """Re-exec with a fixed hash seed and ASLR off, so that set/dict order is part of the replayable state."""
+    want = os.environ.get("VERIF_HASHSEED", "0")
+    if os.environ.get("PYTHONHASHSEED") == want and os.environ.get("PYTHONDONTWRITEBYTECODE") == "1" and os.environ.get("VERIF_PINNED") == "1":
+        return
+    env = dict(os.environ)
+    env["PYTHONHASHSEED"] = want
+    env["PYTHONDONTWRITEBYTECODE"] = "1"
+    env["VERIF_PINNED"] = "1"
+    argv = [sys.executable] + sys.argv
+    setarch = shutil.which("setarch")
+    if setarch:
+        argv = [setarch, os.uname().machine, "-R"] + argv
+    os.execve(argv[0], argv, env)
 
 
 def setup_path():
